@@ -317,5 +317,21 @@ for _k, _fns in (("C02", "_reuse_previous_object / _update_existing_object / _nu
                  ("C12", "TimeStamp.__init__ (integer part), as_datetime64, _multiply_high"), ("C16", "_components_to_path and _path_components")):
     CHECKS[_k].update(text=CHECKS[_k]["text"] + TIED % _fns)
 
+CHECKS["C01"].update(
+    text="Whole-file theorems read_encode_multi / read_encode_multi_interleaved / read_encode_multi_daqmx: for every well-formed encoding of ANY number of segments — segments "
+         "without metadata, incremental object lists, 'matches previous' indexes, changed value counts, objects appearing / disappearing / re-appearing, properties "
+         "overwritten later, byte order chosen per segment, padding, any number of chunks; contiguous (strings and all fixed-width types), interleaved, and DAQmx layouts "
+         "(any number of raw buffers, scalers in any buffer and order, digital-line scalers), freely mixed — readFile (encodeFile e) succeeds and its content (objects in "
+         "order, types, canonical properties, values, per-scaler raw values) equals denote e; read_metadata_multi* give the reader state, denote_multi*_values the values in "
+         "closed form. Side conditions are explicit decidable predicates (field widths FileFits / FileFitsD, < 2^63 bytes, only channels carry data, DAQmx widths agree), each "
+         "shown necessary by a kernel-checked counterexample and satisfied by 7-segment examples evaluated in the kernel. format_constants_are_reference / "
+         "type_table_is_reference / daqmx_tables_are_reference: the constants the spec and the model take from the library equal a hand-written transcription of the format "
+         "description. Not one theorem: the length-unknown marker on uncut files of several segments, typed DAQmx channels; those are covered by the correspondence of the "
+         "executable model with the real reader and by the spec oracle (denote) on every generated file, and on the repo's LabVIEW-written example files.",
+    technique="Lean 4 proof (whole-file theorems by induction over segments for all three layouts; reference constants) + executable model correspondence + spec oracle")
+CHECKS["C11"].update(text=CHECKS["C11"]["text"].replace("The parser round trip for DAQmx indexes is in C01 (readDaqmxIndex_encIdx).",
+    "Whole files: read_encode_multi_daqmx (C01Layouts) — reading a multi-segment file with DAQmx segments returns exactly the per-scaler values the spec assigns; "
+    "daqmx_tables_are_reference ties the scaler type codes to the reference table."))
+
 NOTES = ("Properties move from not_applicable to checks as their model, correspondence and theorems are built; a check is claimed at `proof` only when its "
          "headline theorems are registered in lean/obligations.json. See DESIGN.md.")
